@@ -44,9 +44,9 @@ PROPS = {
         "level": "proof",
         "lean_targets": ["LP.Props.C15", "LP.Props.C15V", "LP.Props.C15P", "LP.Props.GenTables"],
         "gen_tables": True,
-        "harnesses": [{"name": "h_interval", "quick": 60000, "thorough": 1000000},
-                      {"name": "h_pival", "quick": 5000, "thorough": 100000},
-                      {"name": "h_vialg", "quick": 4000, "thorough": 80000}],
+        "harnesses": [{"name": "h_interval", "quick": 60000, "thorough": 400000},
+                      {"name": "h_pival", "quick": 5000, "thorough": 50000},
+                      {"name": "h_vialg", "quick": 4000, "thorough": 40000}],
         "select": lambda t: t[1] in ("qi", "di", "vi", "vil", "pi", "via"),
         "nontrivial": lambda t, r: True,
         "rule": "exhaustive: all 45 intervals with end points in {-2..2} (points and every open/closed pattern), all 2025 ordered pairs "
@@ -72,7 +72,7 @@ PROPS = {
     },
     "C13": {
         "level": "proof",
-        "lean_targets": ["LP.Props.C13", "LP.Props.GenTables", "LP.Props.C13Union", "LP.Props.C13UnionNF", "LP.Props.C13Contains", "LP.Props.C13Int", "LP.Props.C13Obs", "LP.Props.C13Count"],
+        "lean_targets": ["LP.Props.C13", "LP.Props.GenTables", "LP.Props.C13Union", "LP.Props.C13UnionNF", "LP.Props.C13Contains", "LP.Props.C13Int", "LP.Props.C13Obs", "LP.Props.C13Count", "LP.Props.C13Status", "LP.Props.C13IntersectNF"],
         "gen_tables": True,
         "harnesses": [{"name": "h_fset", "quick": 3000, "thorough": 40000, "thorough_env": {"LPV_EXH4": "1"}}],
         "select": lambda t: t[1] == "fset",
